@@ -121,8 +121,69 @@ def gen_cases(ctx):
     return files
 
 
+def rule(code, fvs):
+    """the SHELXL rule on floats, for the stateful part (the theorems and the Coq evaluation cover the rule itself)"""
+    m = int(abs(code) // 10) * (1 if code >= 0 else -1)
+    p = abs(code) % 10 * (1 if code >= 0 else -1)
+    if abs(m) <= 1:
+        return p
+    if abs(m) > len(fvs):
+        return None
+    return p * fvs[m - 1] if m > 0 else p * (fvs[-m - 1] - 1)
+
+
+def stateful(ctx):
+    """the occupancy follows the CURRENT code and the CURRENT free variables, also after it has been read before; atoms added
+    behind the Q-peak list count in the exact formula"""
+    rng = ctx.rng
+    ev = 0
+    for k in range(60 if ctx.thorough() else 12):
+        fvs = ['1.0', '0.61', '0.25', '0.8']
+        atoms = [(rng.randrange(len(ELEMS)), code_text(rng.choice([1, 2, 3, -2, -3, 4, -4]), rng.choice(['1', '0.5', '0.25'])), False) for _ in range(6)]
+        atoms += [(0, '11.0', True)] * rng.randint(0, 2)
+        text, unit, z = build_file(rng, fvs, atoms)
+        shx = read(text)
+        fv = [float(x) for x in fvs]
+        real = [a for a in shx.atoms if not a.qpeak]
+        case = {'text': text}
+        first = [a.occupancy for a in real]           # read once, so that anything cached is filled
+        before = dict((key.upper(), v) for key, v in shx.sum_formula_exact_as_dict().items())
+        for a in real[:4]:
+            new = float(code_text(rng.choice([2, 3, -2, -3, 4, 1]), rng.choice(['1', '0.5', '0.25'])))
+            a.sof = new
+            ev += 1
+            exp = rule(new, fv)
+            if exp is not None and abs(a.occupancy - exp) > 1e-9:
+                common.add_violation(ctx, 'after the occupation code of an atom was changed its occupancy does not follow the new code',
+                                     dict(case, atom=a.name, new_code=new), exp, a.occupancy)
+                break
+        else:
+            m = rng.choice([2, 3, 4])
+            newv = round(rng.uniform(0.05, 0.95), 3)
+            shx.fvars.fvars[m - 1].fvar_value = newv
+            fv[m - 1] = newv
+            for a in real:
+                ev += 1
+                exp = rule(a.sof, fv)
+                if exp is not None and abs(a.occupancy - exp) > 1e-9:
+                    common.add_violation(ctx, 'after a free variable was changed the occupancy does not follow its new value',
+                                         dict(case, atom=a.name, free_variable=m, value=newv, code=a.sof), exp, a.occupancy)
+                    break
+            # an atom added through the API sits behind the Q-peaks in the atom list
+            el = rng.randrange(len(ELEMS))
+            now = dict((key.upper(), v) for key, v in shx.sum_formula_exact_as_dict().items())
+            shx.add_atom(name='%s99' % ELEMS[el], coordinates=[0.11, 0.22, 0.33], element=ELEMS[el], sof=10.5, uvals=[0.04, 0.0, 0.0, 0.0, 0.0, 0.0])
+            after = dict((key.upper(), v) for key, v in shx.sum_formula_exact_as_dict().items())
+            ev += 1
+            if abs(after[ELEMS[el].upper()] - now[ELEMS[el].upper()] - 0.5) > 1e-9:
+                common.add_violation(ctx, 'an atom that is not a Q-peak (added behind the Q-peak list) is left out of the exact sum formula',
+                                     dict(case, element=ELEMS[el]), now[ELEMS[el].upper()] + 0.5, after[ELEMS[el].upper()])
+    return ev
+
+
 def run(ctx):
     common.check_obligations(ctx, THEOREMS)
+    n_stateful = stateful(ctx)
     files = gen_cases(ctx)
     shards = []
     index = []   # per shard: list of (file_no, kind, atom_no)
@@ -202,7 +263,7 @@ def run(ctx):
             ctx.broken.append('correspondence Model/Occ.v sum_formula_exact differs from the implementation (file %d)' % fno)
         if not (common.parse_bool(res[4]) and unit_len_ok):
             common.add_violation(ctx, 'UNIT-based sum formula is not UNIT/Z in SFAC order', {'text': text, 'kind': 'unit'}, observed=sf)
-    ctx.cov['evaluations'] = nocc + 2 * len(index)
+    ctx.cov['evaluations'] = nocc + 2 * len(index) + n_stateful
     ctx.cov['distinct_nontrivial'] = len(nontriv)
     ctx.cov['rule'] = ('occupation codes 10m+p (m grid x p values x 4 free-variable lists, on atom lines of generated files) compared '
                        'model-vs-implementation and spec-vs-implementation inside Coq (vm_compute, exact Q, tolerance 3e-8); '
